@@ -1309,14 +1309,27 @@ pub fn forwarder_responder(u: Arc<Universe>, plan: Vec<Fault>, after: Fault, mut
         let e = u.expected(&q.name, q.qtype);
         let mut answers = e.chain.clone();
         answers.extend(e.finals.clone());
-        let honest = universe::ServerReply {
-            rcode: Rcode::NoError,
-            aa: false,
-            answers,
-            authority: e.soa.clone().map(|s| vec![s]).unwrap_or_default(),
-            additional: vec![],
-            zone_depth: None,
-            kind: "forwarder",
+        // a forwarder resolves on the asker's behalf only when asked to (RD); otherwise it has nothing to say
+        let honest = if req.header.recursion_desired {
+            universe::ServerReply {
+                rcode: Rcode::NoError,
+                aa: false,
+                answers,
+                authority: e.soa.clone().map(|s| vec![s]).unwrap_or_default(),
+                additional: vec![],
+                zone_depth: None,
+                kind: "forwarder",
+            }
+        } else {
+            universe::ServerReply {
+                rcode: Rcode::Refused,
+                aa: false,
+                answers: vec![],
+                authority: vec![],
+                additional: vec![],
+                zone_depth: None,
+                kind: "forwarder-asked-without-RD",
+            }
         };
         let fault = plan.get(ctx.index).copied().unwrap_or(after);
         let action = apply_fault(fault, req, &honest, &mut rng);
